@@ -184,6 +184,17 @@ func (b *Builder) term(v ssa.Value) *Term {
 				return Concat(b.Term(x.X), b.Term(x.Y)) // string concatenation is not commutative
 			}
 		}
+		if x.Op == token.EQL || x.Op == token.NEQ {
+			// an interface value made from a value of a concrete type is never nil (a typed nil pointer in an
+			// interface included): the comparison with nil is decided by that, not by the value inside
+			for _, pr := range [][2]ssa.Value{{x.X, x.Y}, {x.Y, x.X}} {
+				if c, ok := pr[1].(*ssa.Const); ok && c.Value == nil && types.IsInterface(pr[0].Type()) {
+					if tt := TermType(b.Term(pr[0])); tt != nil && !types.IsInterface(tt) {
+						return Const(constant.MakeBool(x.Op == token.NEQ), types.Typ[types.Bool])
+					}
+				}
+			}
+		}
 		return Bin(x.Op.String(), b.Term(x.X), b.Term(x.Y))
 	case *ssa.Phi:
 		if b.PhiChoice != nil {
